@@ -11,6 +11,9 @@
          A sanitizer report / ASSERT abort is the violation (the op line is the replay).
      hl <family> <params...>
          high-level API with exact-size caller buffers (c07_hl.h) -> "ok"
+     co <family> <seed> <params...>
+         core encoders/decoders/helpers and containers, two-pass (probe length, allocate exactly,
+         decode/encode) with exact-size caller OUTPUT buffers (c07_core.h) -> "ok"
    Built with cfg asan-dbg / w32-dbg (ASSERTs active, exact-size blobs, ASan) and rel (valgrind). */
 #include <bee2/defs.h>
 #include <bee2/core/mem.h>
@@ -77,7 +80,23 @@ static word* ww(size_t n)
 	for (i = 0; i < n; ++i) a[i] = (word)rnd();
 	return n ? a : (word*)((unsigned char*)a + 1);
 }
-static void wfree(word* a, size_t n) { free(n ? (void*)a : (void*)((unsigned char*)a - 1)); }
+/* OUTPUT buffers: exact size, NOT initialised by the harness.  When C07_SINK is set (valgrind run) every word
+   buffer is written to /dev/null before it is freed: memcheck then reports an output octet that the
+   library left uninitialised ("Syscall param write(buf) points to uninitialised byte(s)"). */
+#include <unistd.h>
+#include <fcntl.h>
+static int sink_fd_ = -2;
+static void sink(const void* p, size_t len)
+{
+	if (sink_fd_ == -2) sink_fd_ = getenv("C07_SINK") ? open("/dev/null", O_WRONLY) : -1;
+	if (sink_fd_ >= 0 && len) { ssize_t r_ = write(sink_fd_, p, len); (void)r_; }
+}
+static word* wo(size_t n)
+{
+	word* a = (word*)malloc(n ? n * sizeof(word) : 1);
+	return n ? a : (word*)((unsigned char*)a + 1);
+}
+static void wfree(word* a, size_t n) { sink(a, n * sizeof(word)); free(n ? (void*)a : (void*)((unsigned char*)a - 1)); }
 /* top word non-zero */
 static word* wwnz(size_t n) { word* a = ww(n); if (n && a[n - 1] == 0) a[n - 1] = 1; return a; }
 static word* wwodd(size_t n) { word* a = wwnz(n); if (n) a[0] |= 1; return a; }
@@ -117,9 +136,16 @@ static int c07_hl(int argc, char** argv) { (void)argc; (void)argv; return 0; }
 #else
 #include "c07_hl.h"
 #endif
+#ifdef C07_NO_CORE
+static int c07_core(int argc, char** argv) { (void)argc; (void)argv; return 0; }
+#else
+#include "c07_core.h"
+#endif
 
 static void handle(int argc, char** argv)
 {
+	static int once_ = 0;
+	if (!once_) { setvbuf(stdout, NULL, _IOLBF, 0); once_ = 1; }   /* every completed op is visible even if a later one aborts */
 	if (argc >= 2 && !strcmp(argv[0], "deep"))
 	{
 		size_t r = sz_eval(argv[1], argv + 2, argc - 2);
@@ -148,6 +174,11 @@ static void handle(int argc, char** argv)
 	if (argc >= 2 && !strcmp(argv[0], "hl"))
 	{
 		if (!c07_hl(argc, argv)) printf("bad-op");
+		return;
+	}
+	if (argc >= 2 && !strcmp(argv[0], "co"))
+	{
+		if (!c07_core(argc, argv)) printf("bad-op");
 		return;
 	}
 	printf("bad-op");
